@@ -170,6 +170,8 @@ func (e *env) refUC(n *node, height uint64, sigs, pres []uint8) (verdict, string
 			return e.sigValid[1][sig]
 		case "unk":
 			return true
+		case "e1s", "e1p":
+			return e.shortValid[key][sig]
 		}
 		return false // entropy
 	}
